@@ -3,6 +3,7 @@ package diam
 import (
 	"fmt"
 	"math/big"
+	"strconv"
 	"strings"
 	"testing"
 	"time"
@@ -35,8 +36,41 @@ type C08Case struct {
 
 var costStrings = []string{"1", "2", "7", "10", "999", "4294967295", "0", "0.5", "1.5", "0.25", "2.50", "10.0", "", "abc", "1.2.3", "-1", " 5", "1e3", "00", "0.0"}
 
+// genCost builds a stored unit-cost string: the fixed list above, or a decimal numeral constructed from an
+// integer part (with or without leading zeros), an optional point and 0-15 fraction digits (all zero = an
+// integer written with a point), or short text over the alphabet such strings are made of.
+func genCost(t *rapid.T) string {
+	ints := []uint64{1, 2, 3, 9, 10, 12, 99, 100, 250, 255, 256, 1000, 65535, 65536, 999999, 1 << 24, 1<<31 - 1, 1 << 31, 1<<32 - 1}
+	intPart := func() string {
+		var n uint64
+		if rapid.Bool().Draw(t, "poolInt") {
+			n = rapid.SampledFrom(ints).Draw(t, "int")
+		} else {
+			n = rapid.Uint64Range(0, 1<<32-1).Draw(t, "intAny")
+		}
+		return strings.Repeat("0", rapid.SampledFrom([]int{0, 0, 0, 1, 3}).Draw(t, "lead")) + strconv.FormatUint(n, 10)
+	}
+	switch rapid.IntRange(0, 9).Draw(t, "costKind") {
+	case 0, 1, 2:
+		return rapid.SampledFrom(costStrings).Draw(t, "cost")
+	case 3, 4:
+		return intPart()
+	case 5, 6: // an integer written with a decimal point
+		return intPart() + "." + strings.Repeat("0", rapid.IntRange(0, 15).Draw(t, "zeros"))
+	case 7, 8: // a fraction
+		k := rapid.IntRange(1, 12).Draw(t, "fracLen")
+		f := rapid.StringOfN(rapid.RuneFrom([]rune("0123456789")), k, k, k).Draw(t, "frac")
+		ip := "0"
+		if rapid.Bool().Draw(t, "withInt") {
+			ip = intPart()
+		}
+		return ip + "." + f
+	}
+	return rapid.StringOfN(rapid.RuneFrom([]rune("0123456789.-+eE ,x\t٣")), 0, 6, -1).Draw(t, "text")
+}
+
 func genC08(t *rapid.T) C08Case {
-	c := C08Case{Cost: rapid.SampledFrom(costStrings).Draw(t, "cost")}
+	c := C08Case{Cost: genCost(t)}
 	n := rapid.IntRange(1, 8).Draw(t, "n")
 	for i := 0; i < n; i++ {
 		r := SUR{SubType: rapid.SampledFrom([]int{1, 1, 1, 2, 2, 2, 0, 3, 9}).Draw(t, "subType")}
@@ -296,7 +330,10 @@ func judgeAgree(c agreeCase) *h.Verdict {
 
 func TestC08Agreement(t *testing.T) {
 	h.Run(t, "C08", "agreement", func(t *rapid.T) agreeCase {
-		return agreeCase{Cost: rapid.SampledFrom([]string{"1", "2", "7", "10", "999", "65536", "4294967295", "10.0", "2.50", "1.5", "0.5"}).Draw(t, "cost")}
+		if rapid.IntRange(0, 3).Draw(t, "fromList") == 0 {
+			return agreeCase{Cost: rapid.SampledFrom([]string{"1", "2", "7", "10", "999", "65536", "4294967295", "10.0", "2.50", "1.5", "0.5"}).Draw(t, "cost")}
+		}
+		return agreeCase{Cost: genCost(t)}
 	}, judgeAgree)
 }
 
